@@ -454,14 +454,22 @@ impl Driver {
 
 pub fn driver_case(ctx: &Ctx, case: u64, acc: &mut Acc, arm: Arm, steps: usize) -> Result<DriverStats, V> {
     let mut d = Driver::new(ctx, 0xD21, case, arm);
+    let want_sample = acc.samples.len() < 2;
+    let mut excerpt: Vec<String> = vec![];
     for _ in 0..steps {
         let Some(rec) = d.step(acc)? else { break };
+        if want_sample && excerpt.len() < 10 {
+            excerpt.push(rec.short());
+        }
         if rec.res.is_panic() {
             acc.inconclusive += 1;
             break;
         }
     }
     d.finish(acc);
+    if want_sample {
+        acc.sample(|| serde_json::json!({"workload": "driver", "case": case, "identity": format!("{:?}", d.node.id()), "codec": format!("{:?}", d.node.codec), "timer_mode": format!("{:?}", d.mode), "config": format!("{:?}", d.node.cfg), "first_calls": excerpt, "stats": format!("{:?}", d.stats)}));
+    }
     Ok(d.stats.clone())
 }
 
